@@ -652,116 +652,132 @@ TIMER_CORPUS = [
 ]
 
 
+def script_at(script: list) -> Callable[[int], tuple]:
+    return lambda k: tuple(script[k][0]) if k < len(script) else ('ok',)
+
+
+def do_activity(ctx: fw.Ctx, D: dict, h: dict, script: list, t0: int, i: int) -> None:
+    env = c_env('T', DEFAULT_BACKOFF)
+    at = script_at(script)
+    calls, verdict, end = run_activity(h, script, t0, i)
+    case = {'driver': 'activity', 'handler': h, 'script': script, 't0': t0}
+    ctx.count('driver', 'activity')
+    ctx.count('verdict', 'activity:' + verdict)
+    if nontrivial(script):
+        ctx.nontriv(['activity', h, script])
+    if i < 2:
+        ctx.sample({**case, 'entries': calls, 'verdict': verdict})
+    expected = check_series(ctx, case, h, at, calls, 0, DEFAULT_BACKOFF, complete=verdict in ('success', 'failure'))
+    if verdict in ('running', 'stalled'):
+        ctx.fail('activity did not finish: ' + ('busy loop without progress of time' if verdict == 'stalled' else '600 virtual seconds'),
+                 case, {'calls': calls}, sig='not-finished')
+    elif h['timeout'] is None and expected is not None and verdict != expected:
+        ctx.fail(f'activity ended with {verdict}, the property prescribes {expected}', case, {'calls': calls}, sig='verdict')
+    fuel = len(script) + 4
+    tr = f'act_trace {cq.cnat(fuel)} {env} {c_cfg(h)} {cq.cZ(t0)} (from_scratch {cq.cZ(t0)}) {c_script(script)}'
+    fin = f"({cq.cbool(verdict == 'success')}, {cq.cbool(verdict == 'failure')})"
+    D['activity'].append(fw.Case(f'trace_matches {env} {c_cfg(h)} {cq.cZ(t0)} ({tr}) {c_obs(calls)} {fin}',
+                                 {**case, 'entries': calls, 'verdict': verdict},
+                                 diag=f'option_map (map obs_of) (entries_of {env} {c_cfg(h)} {cq.cZ(t0)} ({tr}))'))
+
+
+def do_daemon(ctx: fw.Ctx, D: dict, h: dict, script: list, t0: int, stop: int | None, i: int) -> None:
+    env = c_env('T', DEFAULT_BACKOFF)
+    at = script_at(script)
+    calls, end, finished = run_daemon(h, script, t0, stop, i)
+    case = {'driver': 'daemon', 'handler': h, 'script': script, 't0': t0, 'stop': stop}
+    ctx.count('driver', 'daemon')
+    if nontrivial(script):
+        ctx.nontriv(['daemon', h, script, stop])
+    stopped_early = stop is not None and end >= stop
+    check_series(ctx, case, h, at, calls, 0, DEFAULT_BACKOFF, complete=finished and not stopped_early)
+    if not finished:
+        ctx.fail('daemon did not exit (busy loop without progress of time, or 600 virtual seconds)', case, {'calls': calls[:20]},
+                 sig='not-finished')
+    if stop is not None and any(c[0] > stop for c in calls):
+        ctx.fail('daemon entered after its stopper was set', case, {'calls': calls}, sig='entry-after-stop')
+    fuel = len(script) + 4
+    tr = f'dmn_trace {cq.cnat(fuel)} {env} {c_cfg(h)} {coz(stop)} {cq.cZ(t0)} (from_scratch {cq.cZ(t0)}) {c_script(script)}'
+    D['daemon'].append(fw.Case(f'trace_entries_match {env} {c_cfg(h)} {cq.cZ(t0)} ({tr}) {c_obs(calls)}',
+                               {**case, 'entries': calls, 'exit': end},
+                               diag=f'option_map (map obs_of) (entries_of {env} {c_cfg(h)} {cq.cZ(t0)} ({tr}))'))
+
+
+def do_timer(ctx: fw.Ctx, D: dict, h: dict, script: list, t0: int, interval: int | None, sharp: bool, stop: int, i: int) -> None:
+    env = c_env('T', DEFAULT_BACKOFF)
+    at = script_at(script)
+    calls, end, finished = run_timer(h, script, t0, interval, sharp, stop, i)
+    case = {'driver': 'timer', 'handler': h, 'script': script, 't0': t0, 'interval': interval, 'sharp': sharp, 'stop': stop}
+    ctx.count('driver', 'timer')
+    if nontrivial(script):
+        ctx.nontriv(['timer', h, script, interval, sharp, stop])
+    if i == 0:
+        ctx.sample({**case, 'entries': calls})
+    if not finished:
+        ctx.fail('timer did not exit (busy loop without progress of time, or 600 virtual seconds after its stopper was set)', case,
+                 {'calls': calls[:20]}, sig='not-finished')
+    if any(c[0] > stop for c in calls):
+        ctx.fail('timer entered after its stopper was set', case, {'calls': calls}, sig='entry-after-stop')
+    series = split_series(calls)
+    idx = 0
+    prev_verdict: str | None = None
+    prev_last: tuple | None = None
+    for k, ser in enumerate(series):
+        if k > 0:
+            gap = ser[0][0] - prev_last[2]  # type: ignore[index]
+            if prev_verdict is None and h['timeout'] is not None:
+                # the series may have ended by the timeout: its retry would have started at/after first + T
+                req = requested_delay(h, at(idx - 1), DEFAULT_BACKOFF) or 0
+                if max(prev_last[2] + req, ser[0][0]) >= series[k - 1][0][0] + h['timeout']:  # type: ignore[index]
+                    prev_verdict = 'failure'
+                    ctx.count('timer', 'series-ended-by-timeout')
+            if prev_verdict == 'failure':
+                # the property: "recorded as failed for good", "ends it without retry" — for timers alike
+                ctx.fail('timer handler entered again (from scratch) after it had failed for good', case,
+                         {'entry': idx, 'at': ser[0][0], 'retry': ser[0][1], 'previous_verdict': prev_verdict, 'gap': gap,
+                          'reset_by_state_done': True, 'calls': calls}, sig='timer-restarted-after-final-failure')
+                ctx.count('timer', 'restart-after-failure')
+            elif prev_verdict == 'success':
+                ctx.count('timer', 'restart-after-success')
+                if interval is None:
+                    ctx.fail('timer without interval invoked again', case, {'calls': calls}, sig='entry-after-final')
+                elif gap < (interval if not sharp else 1):
+                    ctx.fail('timer invoked sooner than its interval', case, {'gap': gap, 'calls': calls}, sig='interval')
+            else:
+                ctx.fail('timer handler started from scratch while a retry was pending', case,
+                         {'entry': idx, 'calls': calls}, sig='reset-while-retrying')
+        last = k == len(series) - 1
+        prev_verdict = check_series(ctx, case, h, at, ser, idx, DEFAULT_BACKOFF, complete=not last)
+        prev_last = ser[-1]
+        idx += len(ser)
+    grid = (stop - t0) // 250 + 2
+    tfuel = min(len(script) + int(grid) + 6, 400)
+    tr = (f'tmr_trace {cq.cnat(tfuel)} {env} {c_cfg(h)} {coz(interval)} {cq.cbool(sharp)} {coz(stop)} {cq.cZ(t0)} '
+          f'(from_scratch {cq.cZ(t0)}) {c_script(script)}')
+    D['timer'].append(fw.Case(f'trace_entries_match {env} {c_cfg(h)} {cq.cZ(t0)} ({tr}) {c_obs(calls)}',
+                              {**case, 'entries': calls, 'exit': end},
+                              diag=f'option_map (map obs_of) (entries_of {env} {c_cfg(h)} {cq.cZ(t0)} ({tr}))'))
+
+
 def part_drivers(ctx: fw.Ctx) -> None:
     K.load()
     r = ctx.rng
     n = ctx.scale(170, 7000)
-    env = c_env('T', DEFAULT_BACKOFF)
     D: dict[str, list[fw.Case]] = {'activity': [], 'daemon': [], 'timer': []}
     for i in range(n):
         h = gen_cfg(r)
         script = gen_script(r)
         t0 = r.choice([0, 1000, 5000])
-        at = lambda k, script=script: script[k][0] if k < len(script) else ('ok',)
-        fuel = len(script) + 4
-
-        # ---------------- run_activity
-        calls, verdict, end = run_activity(h, script, t0, i)
-        case = {'driver': 'activity', 'handler': h, 'script': script, 't0': t0}
-        ctx.count('driver', 'activity')
-        ctx.count('verdict', 'activity:' + verdict)
-        if nontrivial(script):
-            ctx.nontriv(['activity', h, script])
-        if i < 2:
-            ctx.sample({**case, 'entries': calls, 'verdict': verdict})
-        expected = check_series(ctx, case, h, at, calls, 0, DEFAULT_BACKOFF, complete=verdict in ('success', 'failure'))
-        if verdict in ('running', 'stalled'):
-            ctx.fail('activity did not finish: ' + ('busy loop without progress of time' if verdict == 'stalled' else '600 virtual seconds'),
-                     case, {'calls': calls}, sig='not-finished')
-        elif h['timeout'] is None and expected is not None and verdict != expected:
-            ctx.fail(f'activity ended with {verdict}, the property prescribes {expected}', case, {'calls': calls}, sig='verdict')
-        tr = f'act_trace {cq.cnat(fuel)} {env} {c_cfg(h)} {cq.cZ(t0)} (from_scratch {cq.cZ(t0)}) {c_script(script)}'
-        fin = f"({cq.cbool(verdict == 'success')}, {cq.cbool(verdict == 'failure')})"
-        D['activity'].append(fw.Case(f'trace_matches {env} {c_cfg(h)} {cq.cZ(t0)} ({tr}) {c_obs(calls)} {fin}',
-                                     {**case, 'entries': calls, 'verdict': verdict},
-                                     diag=f'option_map (map obs_of) (entries_of {env} {c_cfg(h)} {cq.cZ(t0)} ({tr}))'))
-
-        # ---------------- _daemon
+        do_activity(ctx, D, h, script, t0, i)
         stop = r.choice([None, None, t0 + Q + 250 * r.randrange(0, 24)])
-        calls, end, finished = run_daemon(h, script, t0, stop, i)
-        case = {'driver': 'daemon', 'handler': h, 'script': script, 't0': t0, 'stop': stop}
-        ctx.count('driver', 'daemon')
-        if nontrivial(script):
-            ctx.nontriv(['daemon', h, script, stop])
-        stopped_early = stop is not None and end >= stop
-        check_series(ctx, case, h, at, calls, 0, DEFAULT_BACKOFF, complete=finished and not stopped_early)
-        if not finished:
-            ctx.fail('daemon did not exit within 600 virtual seconds', case, {'calls': calls}, sig='not-finished')
-        if stop is not None and any(c[0] > stop for c in calls):
-            ctx.fail('daemon entered after its stopper was set', case, {'calls': calls}, sig='entry-after-stop')
-        tr = f'dmn_trace {cq.cnat(fuel)} {env} {c_cfg(h)} {coz(stop)} {cq.cZ(t0)} (from_scratch {cq.cZ(t0)}) {c_script(script)}'
-        D['daemon'].append(fw.Case(f'trace_entries_match {env} {c_cfg(h)} {cq.cZ(t0)} ({tr}) {c_obs(calls)}',
-                                   {**case, 'entries': calls, 'exit': end},
-                                   diag=f'option_map (map obs_of) (entries_of {env} {c_cfg(h)} {cq.cZ(t0)} ({tr}))'))
-
-        # ---------------- _timer
+        do_daemon(ctx, D, h, script, t0, stop, i)
         if i < len(TIMER_CORPUS):
             h, script, t0, interval, sharp, stop = TIMER_CORPUS[i]
-            at = lambda k, script=script: script[k][0] if k < len(script) else ('ok',)
         else:
             interval = r.choice([None, 500, 1000, 2500])
             sharp = r.random() < 0.4
             stop = t0 + Q + 250 * r.randrange(0, 40)
-        calls, end, finished = run_timer(h, script, t0, interval, sharp, stop, i)
-        case = {'driver': 'timer', 'handler': h, 'script': script, 't0': t0, 'interval': interval, 'sharp': sharp, 'stop': stop}
-        ctx.count('driver', 'timer')
-        if nontrivial(script):
-            ctx.nontriv(['timer', h, script, interval, sharp, stop])
-        if i == 0:
-            ctx.sample({**case, 'entries': calls})
-        if not finished:
-            ctx.fail('timer did not exit within 600 virtual seconds after its stopper was set', case, {'calls': calls}, sig='not-finished')
-        if any(c[0] > stop for c in calls):
-            ctx.fail('timer entered after its stopper was set', case, {'calls': calls}, sig='entry-after-stop')
-        series = split_series(calls)
-        idx = 0
-        prev_verdict: str | None = None
-        prev_last: tuple | None = None
-        for k, ser in enumerate(series):
-            if k > 0:
-                gap = ser[0][0] - prev_last[2]  # type: ignore[index]
-                if prev_verdict is None and h['timeout'] is not None:
-                    # the series may have ended by the timeout: its retry would have started at/after first + T
-                    req = requested_delay(h, at(idx - 1), DEFAULT_BACKOFF) or 0
-                    if max(prev_last[2] + req, ser[0][0]) >= series[k - 1][0][0] + h['timeout']:  # type: ignore[index]
-                        prev_verdict = 'failure'
-                        ctx.count('timer', 'series-ended-by-timeout')
-                if prev_verdict == 'failure':
-                    # the property: "recorded as failed for good", "ends it without retry" — for timers alike
-                    ctx.fail('timer handler entered again (from scratch) after it had failed for good', case,
-                             {'entry': idx, 'at': ser[0][0], 'retry': ser[0][1], 'previous_verdict': prev_verdict, 'gap': gap,
-                              'reset_by_state_done': True, 'calls': calls}, sig='timer-restarted-after-final-failure')
-                    ctx.count('timer', 'restart-after-failure')
-                elif prev_verdict == 'success':
-                    ctx.count('timer', 'restart-after-success')
-                    if interval is None:
-                        ctx.fail('timer without interval invoked again', case, {'calls': calls}, sig='entry-after-final')
-                    elif gap < (interval if not sharp else 1):
-                        ctx.fail('timer invoked sooner than its interval', case, {'gap': gap, 'calls': calls}, sig='interval')
-                else:
-                    ctx.fail('timer handler started from scratch while a retry was pending', case,
-                             {'entry': idx, 'calls': calls}, sig='reset-while-retrying')
-            last = k == len(series) - 1
-            prev_verdict = check_series(ctx, case, h, at, ser, idx, DEFAULT_BACKOFF, complete=not last)
-            prev_last = ser[-1]
-            idx += len(ser)
-        grid = (stop - t0) // max(Q, min(x for x in [interval or 10 ** 9, 250])) + 2
-        tfuel = min(len(script) + int(grid) + 6, 400)
-        tr = (f'tmr_trace {cq.cnat(tfuel)} {env} {c_cfg(h)} {coz(interval)} {cq.cbool(sharp)} {coz(stop)} {cq.cZ(t0)} '
-              f'(from_scratch {cq.cZ(t0)}) {c_script(script)}')
-        D['timer'].append(fw.Case(f'trace_entries_match {env} {c_cfg(h)} {cq.cZ(t0)} ({tr}) {c_obs(calls)}',
-                                  {**case, 'entries': calls, 'exit': end},
-                                  diag=f'option_map (map obs_of) (entries_of {env} {c_cfg(h)} {cq.cZ(t0)} ({tr}))'))
+        do_timer(ctx, D, h, script, t0, interval, sharp, stop, i)
     for name, cs in D.items():
         ctx.differential(name, HEADER, cs, shard=120)
         ctx.cov['traces_validated_against_impl'] += len(cs)
@@ -955,6 +971,120 @@ def part_subhandlers(ctx: fw.Ctx) -> None:
 
 
 # --------------------------------------------------------------------------------------
+# part F: activities with several handlers per batch; state snapshots through the lifecycle callback
+# --------------------------------------------------------------------------------------
+
+def part_multi_activity(ctx: fw.Ctx) -> None:
+    K.load()
+    r = ctx.rng
+    n = ctx.scale(60, 1500)
+    env = c_env('T', DEFAULT_BACKOFF)
+    cases: list[fw.Case] = []
+    for i in range(n):
+        names = ['a0', 'a1', 'a2'][: r.choice([2, 2, 3])]
+        hs = {nm: (gen_cfg(r), gen_script(r, 4)) for nm in names}
+        fns = {nm: Scripted(hs[nm][1], i) for nm in names}
+        base = r.choice([K.lifecycles.all_at_once, K.lifecycles.all_at_once, K.lifecycles.one_by_one, K.lifecycles.asap])
+        batches: list[dict] = []
+
+        def lifecycle(handlers: Any, *, state: Any, **kw: Any) -> Any:
+            chosen = base(handlers, state=state, **kw)
+            batches.append({'at': to_ms(asyncio.get_running_loop().time()), 'todo': [h.id for h in handlers],
+                            'chosen': [h.id for h in chosen], 'states': {nm: hs_fields(state[nm]) for nm in names}})
+            return chosen
+
+        reg = K.registries.OperatorRegistry()
+        for nm in names:
+            reg._activities.append(K.handlers.ActivityHandler(id=nm, activity=K.causes.Activity.STARTUP, **handler_kwargs(hs[nm][0], fns[nm].fn)))
+        settings = settings_with(DEFAULT_BACKOFF)
+        t0 = r.choice([0, 5000])
+        res, end, finished = run_loop(lambda: K.activities.run_activity(
+            lifecycle=lifecycle, registry=reg, settings=settings, activity=K.causes.Activity.STARTUP, indices={},
+            memo=K.ephemera.Memo()), t0, t0 + 600000)
+        verdict = ('stalled' if isinstance(res, vloop.Stall) else 'running') if not finished else \
+            'failure' if isinstance(res, K.activities.ActivityError) else 'success'
+        if finished and isinstance(res, BaseException) and verdict != 'failure':
+            raise res
+        case_base = {'driver': 'multi-activity', 'lifecycle': base.__name__, 't0': t0,
+                     'handlers': {nm: {'handler': hs[nm][0], 'script': hs[nm][1]} for nm in names}}
+        ctx.count('driver', 'multi-activity')
+        ctx.count('multi_lifecycle', base.__name__)
+        if verdict in ('running', 'stalled'):
+            ctx.fail('activity did not finish: ' + ('busy loop without progress of time' if verdict == 'stalled' else '600 virtual seconds'),
+                     case_base, {'batches': len(batches)}, sig='not-finished')
+        # reconstruct, per batch, when each chosen handler was reached / left, and when the outcomes were folded in
+        used = {nm: 0 for nm in names}
+        labels: dict[str, list[str]] = {nm: [] for nm in names}
+        obs: dict[str, list] = {nm: [] for nm in names}
+        consistent = True
+        for k, b in enumerate(batches):
+            cursor = b['at']
+            spans = {}
+            for nm in b['chosen']:
+                calls = fns[nm].calls
+                if used[nm] < len(calls) and calls[used[nm]][0] == cursor and (k + 1 == len(batches) or calls[used[nm]][0] < batches[k + 1]['at']
+                                                                               or calls[used[nm]][2] <= batches[k + 1]['at']):
+                    c = calls[used[nm]]
+                    spans[nm] = (cursor, c[2], True, used[nm])
+                    cursor = c[2]
+                    used[nm] += 1
+                else:
+                    spans[nm] = (cursor, cursor, False, None)
+            te = cursor
+            nxt = batches[k + 1]['states'] if k + 1 < len(batches) else None
+            for nm in names:
+                exp = 'None' if nxt is None else f'(Some {c_hstate(nxt[nm])})'
+                if nm in spans:
+                    tc, tx, called, idx = spans[nm]
+                    a = (hs[nm][1][idx][0] if idx < len(hs[nm][1]) else ('ok',)) if called else ('ok',)
+                    labels[nm].append(f'(Tick {cq.cZ(b["at"])} {cq.cZ(tc)} {cq.cZ(tx)} {cq.cZ(te)} {c_raised(a)}, {exp})')
+                    if called:
+                        obs[nm].append((tc, fns[nm].calls[idx][1], te))
+                elif nm not in b['todo']:
+                    labels[nm].append(f'(Tick {cq.cZ(b["at"])} {cq.cZ(b["at"])} {cq.cZ(b["at"])} {cq.cZ(b["at"])} ROk, {exp})')
+        for nm in names:
+            if used[nm] != len(fns[nm].calls):
+                consistent = False
+        if not consistent:
+            ctx.correspondence_break('T:multi-activity', {'what': 'entries could not be attributed to the batches seen by the lifecycle callback',
+                                                          'case': case_base})
+            continue
+        any_failure = False
+        for nm in names:
+            h, script = hs[nm]
+            calls = [tuple(c) for c in fns[nm].calls]
+            case = {**case_base, 'id': nm, 'handler': h, 'script': script}
+            at = lambda k, script=script: script[k][0] if k < len(script) else ('ok',)
+            if nontrivial(script):
+                ctx.nontriv(['multi', h, script, base.__name__])
+            v = check_series(ctx, case, h, at, calls, 0, DEFAULT_BACKOFF, complete=verdict in ('success', 'failure'))
+            any_failure = any_failure or v == 'failure'
+            # the awakened filter: a handler is offered to the lifecycle only when it is not sleeping and not finished
+            for b in batches:
+                st = b['states'][nm]
+                sleeping = st['delayed'] is not None and st['delayed'] > b['at']
+                if nm in b['todo'] and (sleeping or st['success'] or st['failure']):
+                    ctx.fail('handler offered for execution while sleeping or finished', case, {'at': b['at'], 'state': st},
+                             sig='retry-too-soon' if sleeping else 'entry-after-final')
+            term = f'run_check_matches {env} {c_cfg(h)} {cq.cZ(t0)} {cq.clist(labels[nm])} {c_obs(obs[nm])}'
+            cases.append(fw.Case(term, {**case, 'entries': calls, 'batches': [{k: v for k, v in b.items() if k != 'states'} for b in batches]}))
+        if all(hs[nm][0]['timeout'] is None for nm in names) and verdict in ('success', 'failure'):
+            if (verdict == 'failure') != any_failure:
+                ctx.fail(f'activity ended with {verdict}, the property prescribes {"failure" if any_failure else "success"}', case_base, sig='verdict')
+    ctx.differential('multi_activity', HEADER, cases, shard=150)
+    ctx.cov['traces_validated_against_impl'] += len(cases)
+
+
+# --------------------------------------------------------------------------------------
+
+def run_parts(ctx: fw.Ctx) -> None:
+    part_exec(ctx)
+    part_state(ctx)
+    part_drivers(ctx)
+    part_cycles(ctx)
+    part_subhandlers(ctx)
+    part_multi_activity(ctx)
+
 
 def run(ctx: fw.Ctx) -> int:
     ctx.matchers = {'F9': match_f9}
@@ -963,13 +1093,37 @@ def run(ctx: fw.Ctx) -> int:
     if not ok:
         ctx.correspondence_break('model build', logtxt[-1500:])
         return ctx.finish(RULE)
-    part_exec(ctx)
-    part_state(ctx)
-    part_drivers(ctx)
-    part_cycles(ctx)
-    part_subhandlers(ctx)
+    run_parts(ctx)
     return ctx.finish(RULE, level_note=[
         'user handlers are oracles (scripts of raised exception kinds and durations); times are integer ms (dyadic), '
         'floats outside the model', 'stepped virtual-time loop kv.vloop (CPython 3.12 asyncio internals), wall-clock shim kv.clock',
         'the closed persisted loop (patch/echo/sleep-touch, purge, next cause) is driven by the harness around the real '
         'process_changing_cause; the whole-operator loop belongs to the cycle simulation (C02/C03)'])
+
+
+def _norm_script(script: list) -> list:
+    return [(tuple(a), d) for a, d in script]
+
+
+def replay(ctx: fw.Ctx, body: dict) -> bool:
+    """Re-run the failing input of a replay file on the current tree: True iff the property still fails on it."""
+    K.load()
+    ctx.matchers = {}           # a replay reports the raw truth, known or not
+    case = body.get('case') or {}
+    D: dict[str, list[fw.Case]] = {'activity': [], 'daemon': [], 'timer': []}
+    d = case.get('driver')
+    if d == 'activity':
+        do_activity(ctx, D, case['handler'], _norm_script(case['script']), case['t0'], 0)
+    elif d == 'daemon':
+        do_daemon(ctx, D, case['handler'], _norm_script(case['script']), case['t0'], case.get('stop'), 0)
+    elif d == 'timer':
+        do_timer(ctx, D, case['handler'], _norm_script(case['script']), case['t0'], case.get('interval'), bool(case.get('sharp')),
+                 case['stop'], 0)
+    else:
+        # exec table, state algebra, cycles, sub-handlers, multi-handler activities: the case is a position in a
+        # deterministic sweep; re-run the sweep with the recorded seed/tier and look for the same failure
+        run_parts(ctx)
+        sig = body.get('sig')
+        return any(f['sig'] == sig and f['case'] == case for f in ctx.failures) or \
+            (body.get('kind') == 'no-failing-input-found' and bool(ctx.broken))
+    return bool(ctx.failures)
